@@ -2,10 +2,512 @@ package ssz
 
 import (
 	"bufio"
+	"bytes"
+	"context"
+	"encoding/hex"
+	"fmt"
+	"math/rand"
+
+	"github.com/protolambda/zrnt/eth2/beacon/altair"
+	"github.com/protolambda/zrnt/eth2/beacon/bellatrix"
+	"github.com/protolambda/zrnt/eth2/beacon/capella"
+	"github.com/protolambda/zrnt/eth2/beacon/common"
+	"github.com/protolambda/zrnt/eth2/beacon/deneb"
+	"github.com/protolambda/zrnt/eth2/beacon/electra"
+	"github.com/protolambda/zrnt/eth2/beacon/phase0"
+	"github.com/protolambda/ztyp/codec"
+	"github.com/protolambda/ztyp/tree"
+	"github.com/protolambda/ztyp/view"
 
 	"verifharness/internal/hreg"
 )
 
+// Mode sszstate (property C05, "no stale cached hashes"): the GENERATOR drives the real tree-backed
+// BeaconState views of every fork through mutation sequences (every setter, appends, resets, rotations,
+// whole-subtree replacement, CopyState followed by diverging mutations on both copies). After every step it
+// records, for every live copy, the root the mutated view reports and the bytes it serializes to:
+//
+//	st <step label> <fork>.BeaconState <cfg> <root reported by the mutated view> <serialized bytes>
+//
+// exec (Go side) rebuilds a fresh view from the bytes and answers its root and whether the reported root
+// equals it; the Lean side answers `htr` of the bytes at the specification schema and the same comparison.
+// A stale cached hash shows up as `claimed=stale` on both sides … and as a disagreement if Go's rebuilt root
+// itself differed from the Lean root. Both are violations: the expected answer is `claimed=same`, which the
+// Lean column produces only if the reported root is the root of the content.
+
+type stateCtor struct {
+	fork string
+	mk   func(spec *common.Spec) common.BeaconState
+	as   func(v view.View, err error) (common.BeaconState, error)
+}
+
+var stateCtors = []stateCtor{
+	{"phase0", func(s *common.Spec) common.BeaconState { return phase0.NewBeaconStateView(s) },
+		func(v view.View, err error) (common.BeaconState, error) { return phase0.AsBeaconStateView(v, err) }},
+	{"altair", func(s *common.Spec) common.BeaconState { return altair.NewBeaconStateView(s) },
+		func(v view.View, err error) (common.BeaconState, error) { return altair.AsBeaconStateView(v, err) }},
+	{"bellatrix", func(s *common.Spec) common.BeaconState { return bellatrix.NewBeaconStateView(s) },
+		func(v view.View, err error) (common.BeaconState, error) { return bellatrix.AsBeaconStateView(v, err) }},
+	{"capella", func(s *common.Spec) common.BeaconState { return capella.NewBeaconStateView(s) },
+		func(v view.View, err error) (common.BeaconState, error) { return capella.AsBeaconStateView(v, err) }},
+	{"deneb", func(s *common.Spec) common.BeaconState { return deneb.NewBeaconStateView(s) },
+		func(v view.View, err error) (common.BeaconState, error) { return deneb.AsBeaconStateView(v, err) }},
+	{"electra", func(s *common.Spec) common.BeaconState { return electra.NewBeaconStateView(s) },
+		func(v view.View, err error) (common.BeaconState, error) { return electra.AsBeaconStateView(v, err) }},
+}
+
+func rndRoot(rng *rand.Rand) (r common.Root) {
+	if rng.Intn(8) != 0 {
+		rng.Read(r[:])
+	}
+	return
+}
+
+func rndU64(rng *rand.Rand) uint64 {
+	switch rng.Intn(4) {
+	case 0:
+		return uint64(rng.Intn(4))
+	case 1:
+		return ^uint64(0) - uint64(rng.Intn(3))
+	}
+	return rng.Uint64() >> uint(rng.Intn(64))
+}
+
+type containerLike interface {
+	Get(i uint64) (view.View, error)
+	Set(i uint64, v view.View) error
+}
+
+// mutator applies one random mutation to the state; returns a short label. Errors of the mutation itself are
+// irrelevant (a refused mutation must leave a consistent tree too).
+type mutator struct {
+	rng    *rand.Rand
+	spec   *common.Spec
+	schema *Ty // specification schema of the state (drives whole-subtree replacement)
+	stats  *hreg.Stats
+}
+
+func (m *mutator) valCount(st common.BeaconState) uint64 {
+	vals, err := st.Validators()
+	if err != nil {
+		return 0
+	}
+	n, _ := vals.ValidatorCount()
+	return n
+}
+
+func (m *mutator) step(st common.BeaconState) (label string) {
+	rng, spec := m.rng, m.spec
+	ctx := context.Background()
+	n := m.valCount(st)
+	vi := common.ValidatorIndex(0)
+	if n > 0 {
+		vi = common.ValidatorIndex(rng.Intn(int(n)))
+	}
+	type op struct {
+		name string
+		f    func()
+	}
+	ops := []op{
+		{"set_slot", func() { st.SetSlot(common.Slot(rndU64(rng))) }},
+		{"set_genesis_time", func() { st.SetGenesisTime(common.Timestamp(rndU64(rng))) }},
+		{"set_genesis_validators_root", func() { st.SetGenesisValidatorsRoot(rndRoot(rng)) }},
+		{"set_fork", func() {
+			var f common.Fork
+			rng.Read(f.PreviousVersion[:])
+			rng.Read(f.CurrentVersion[:])
+			f.Epoch = common.Epoch(rndU64(rng))
+			st.SetFork(f)
+		}},
+		{"set_latest_block_header", func() {
+			st.SetLatestBlockHeader(&common.BeaconBlockHeader{Slot: common.Slot(rndU64(rng)), ProposerIndex: common.ValidatorIndex(rndU64(rng)),
+				ParentRoot: rndRoot(rng), StateRoot: rndRoot(rng), BodyRoot: rndRoot(rng)})
+		}},
+		{"block_root_set", func() {
+			if br, err := st.BlockRoots(); err == nil {
+				br.SetRoot(common.Slot(rndU64(rng)), rndRoot(rng))
+			}
+		}},
+		{"state_root_set", func() {
+			if br, err := st.StateRoots(); err == nil {
+				br.SetRoot(common.Slot(rng.Intn(20)), rndRoot(rng))
+			}
+		}},
+		{"historical_roots_append", func() {
+			if h, err := st.HistoricalRoots(); err == nil {
+				h.Append(rndRoot(rng))
+			}
+		}},
+		{"set_eth1_data", func() {
+			st.SetEth1Data(common.Eth1Data{DepositRoot: rndRoot(rng), DepositCount: common.DepositIndex(rndU64(rng)), BlockHash: rndRoot(rng)})
+		}},
+		{"eth1_votes_append", func() {
+			if v, err := st.Eth1DataVotes(); err == nil {
+				v.Append(common.Eth1Data{DepositRoot: rndRoot(rng), DepositCount: common.DepositIndex(rng.Intn(5)), BlockHash: rndRoot(rng)})
+			}
+		}},
+		{"eth1_votes_reset", func() {
+			if v, err := st.Eth1DataVotes(); err == nil {
+				v.Reset()
+			}
+		}},
+		{"increment_deposit_index", func() { st.IncrementDepositIndex() }},
+		{"add_validator", func() {
+			var pk common.BLSPubkey
+			rng.Read(pk[:])
+			st.AddValidator(spec, pk, rndRoot(rng), common.Gwei(rndU64(rng)))
+		}},
+		{"validator_set_field", func() {
+			vals, err := st.Validators()
+			if err != nil || n == 0 {
+				return
+			}
+			v, err := vals.Validator(vi)
+			if err != nil {
+				return
+			}
+			switch rng.Intn(7) {
+			case 0:
+				v.SetEffectiveBalance(common.Gwei(rndU64(rng)))
+			case 1:
+				v.MakeSlashed()
+			case 2:
+				v.SetExitEpoch(common.Epoch(rndU64(rng)))
+			case 3:
+				v.SetWithdrawableEpoch(common.Epoch(rndU64(rng)))
+			case 4:
+				v.SetActivationEpoch(common.Epoch(rndU64(rng)))
+			case 5:
+				v.SetActivationEligibilityEpoch(common.Epoch(rndU64(rng)))
+			case 6:
+				v.SetWithdrawalCredentials(rndRoot(rng))
+			}
+		}},
+		{"balance_set", func() {
+			if b, err := st.Balances(); err == nil && n > 0 {
+				b.SetBalance(vi, common.Gwei(rndU64(rng)))
+			}
+		}},
+		{"balance_set_out_of_range", func() {
+			if b, err := st.Balances(); err == nil {
+				b.SetBalance(common.ValidatorIndex(n+uint64(rng.Intn(3))), common.Gwei(rndU64(rng)))
+			}
+		}},
+		{"set_balances", func() {
+			bals := make([]common.Gwei, n)
+			for i := range bals {
+				bals[i] = common.Gwei(rndU64(rng))
+			}
+			st.SetBalances(bals)
+		}},
+		{"randao_set", func() {
+			if r, err := st.RandaoMixes(); err == nil {
+				r.SetRandomMix(common.Epoch(rndU64(rng)), rndRoot(rng))
+			}
+		}},
+		{"seed_randao", func() { st.SeedRandao(spec, rndRoot(rng)) }},
+		{"slashings_add", func() {
+			if s, err := st.Slashings(); err == nil {
+				s.AddSlashing(common.Epoch(rndU64(rng)), common.Gwei(rng.Intn(1000)))
+			}
+		}},
+		{"slashings_reset", func() {
+			if s, err := st.Slashings(); err == nil {
+				s.ResetSlashings(common.Epoch(rng.Intn(20)))
+			}
+		}},
+		{"set_justification_bits", func() { st.SetJustificationBits(common.JustificationBits{byte(rng.Intn(16))}) }},
+		{"set_previous_justified", func() {
+			st.SetPreviousJustifiedCheckpoint(common.Checkpoint{Epoch: common.Epoch(rndU64(rng)), Root: rndRoot(rng)})
+		}},
+		{"set_current_justified", func() {
+			st.SetCurrentJustifiedCheckpoint(common.Checkpoint{Epoch: common.Epoch(rndU64(rng)), Root: rndRoot(rng)})
+		}},
+		{"set_finalized", func() {
+			st.SetFinalizedCheckpoint(common.Checkpoint{Epoch: common.Epoch(rndU64(rng)), Root: rndRoot(rng)})
+		}},
+		{"replace_subtree", func() { m.replaceField(st) }},
+		{"replace_subtree", func() { m.replaceField(st) }},
+	}
+	// fork-specific
+	if p0, ok := st.(phase0.Phase0PendingAttestationsBeaconState); ok {
+		ops = append(ops,
+			op{"pending_attestation_append", func() {
+				atts, err := p0.CurrentEpochAttestations()
+				if rng.Intn(2) == 0 {
+					atts, err = p0.PreviousEpochAttestations()
+				}
+				if err != nil {
+					return
+				}
+				bits := make(phase0.AttestationBits, 1+rng.Intn(2))
+				rng.Read(bits)
+				bits[len(bits)-1] |= 1
+				bits[len(bits)-1] &= 0x1f
+				att := &phase0.PendingAttestation{AggregationBits: bits, InclusionDelay: common.Slot(rng.Intn(9)), ProposerIndex: common.ValidatorIndex(rng.Intn(9))}
+				att.Data.Slot = common.Slot(rndU64(rng))
+				att.Data.BeaconBlockRoot = rndRoot(rng)
+				atts.Append(att.View(spec))
+			}},
+			op{"rotate_attestations", func() { phase0.ProcessParticipationRecordUpdates(ctx, spec, nil, p0) }},
+		)
+	}
+	if al, ok := st.(altair.AltairLikeBeaconState); ok {
+		ops = append(ops,
+			op{"participation_set_flags", func() {
+				p, err := al.CurrentEpochParticipation()
+				if rng.Intn(2) == 0 {
+					p, err = al.PreviousEpochParticipation()
+				}
+				if err == nil && n > 0 {
+					p.SetFlags(vi, altair.ParticipationFlags(rng.Intn(8)))
+				}
+			}},
+			op{"rotate_participation", func() { altair.ProcessParticipationFlagUpdates(ctx, spec, al) }},
+			op{"inactivity_set_score", func() {
+				if s, err := al.InactivityScores(); err == nil && n > 0 {
+					s.SetScore(vi, rndU64(rng))
+				}
+			}},
+		)
+	}
+	if sc, ok := st.(common.SyncCommitteeBeaconState); ok {
+		mkComm := func() *common.SyncCommitteeView {
+			c := common.SyncCommittee{Pubkeys: make([]common.BLSPubkey, spec.SYNC_COMMITTEE_SIZE)}
+			for i := range c.Pubkeys {
+				rng.Read(c.Pubkeys[i][:])
+			}
+			rng.Read(c.AggregatePubkey[:])
+			v, err := c.View(spec)
+			if err != nil {
+				return nil
+			}
+			return v
+		}
+		ops = append(ops,
+			op{"rotate_sync_committee", func() {
+				if c := mkComm(); c != nil {
+					sc.RotateSyncCommittee(c)
+				}
+			}},
+			op{"set_current_sync_committee", func() {
+				if c := mkComm(); c != nil {
+					sc.SetCurrentSyncCommittee(c)
+				}
+			}},
+		)
+	}
+	type withdrawalState interface {
+		SetNextWithdrawalIndex(common.WithdrawalIndex) error
+		SetNextWithdrawalValidatorIndex(common.ValidatorIndex) error
+		IncrementNextWithdrawalIndex() error
+		HistoricalSummaries() (capella.HistoricalSummariesList, error)
+	}
+	if ws, ok := st.(withdrawalState); ok {
+		ops = append(ops,
+			op{"set_next_withdrawal_index", func() { ws.SetNextWithdrawalIndex(common.WithdrawalIndex(rndU64(rng))) }},
+			op{"increment_next_withdrawal_index", func() { ws.IncrementNextWithdrawalIndex() }},
+			op{"set_next_withdrawal_validator_index", func() { ws.SetNextWithdrawalValidatorIndex(common.ValidatorIndex(rndU64(rng))) }},
+			op{"historical_summaries_append", func() {
+				if h, err := ws.HistoricalSummaries(); err == nil {
+					h.Append(capella.HistoricalSummary{BlockSummaryRoot: rndRoot(rng), StateSummaryRoot: rndRoot(rng)})
+				}
+			}},
+		)
+	}
+	switch s := st.(type) {
+	case *bellatrix.BeaconStateView:
+		ops = append(ops, op{"set_execution_payload_header", func() {
+			h := &bellatrix.ExecutionPayloadHeader{ParentHash: rndRoot(rng), BlockNumber: view.Uint64View(rndU64(rng)), ExtraData: make([]byte, rng.Intn(33)), TransactionsRoot: rndRoot(rng)}
+			s.SetLatestExecutionPayloadHeader(h)
+		}})
+	case *capella.BeaconStateView:
+		ops = append(ops, op{"set_execution_payload_header", func() {
+			h := &capella.ExecutionPayloadHeader{ParentHash: rndRoot(rng), BlockNumber: view.Uint64View(rndU64(rng)), ExtraData: make([]byte, rng.Intn(33)), WithdrawalsRoot: rndRoot(rng)}
+			s.SetLatestExecutionPayloadHeader(h)
+		}})
+	case *deneb.BeaconStateView:
+		ops = append(ops, op{"set_execution_payload_header", func() {
+			h := &deneb.ExecutionPayloadHeader{ParentHash: rndRoot(rng), BlockNumber: view.Uint64View(rndU64(rng)), ExtraData: make([]byte, rng.Intn(33)), ExcessBlobGas: view.Uint64View(rndU64(rng))}
+			s.SetLatestExecutionPayloadHeader(h)
+		}})
+	case *electra.BeaconStateView:
+		ops = append(ops,
+			op{"set_execution_payload_header", func() {
+				h := &deneb.ExecutionPayloadHeader{ParentHash: rndRoot(rng), BlockNumber: view.Uint64View(rndU64(rng)), ExtraData: make([]byte, rng.Intn(33)), BlobGasUsed: view.Uint64View(rndU64(rng))}
+				s.SetLatestExecutionPayloadHeader(h)
+			}},
+			op{"electra_set_scalar", func() {
+				switch rng.Intn(6) {
+				case 0:
+					s.SetDepositRequestsStartIndex(view.Uint64View(rndU64(rng)))
+				case 1:
+					s.SetDepositBalanceToConsume(common.Gwei(rndU64(rng)))
+				case 2:
+					s.SetExitBalanceToConsume(common.Gwei(rndU64(rng)))
+				case 3:
+					s.SetEarliestExitEpoch(common.Epoch(rndU64(rng)))
+				case 4:
+					s.SetConsolidationBalanceToConsume(common.Gwei(rndU64(rng)))
+				case 5:
+					s.SetEarliestConsolidationEpoch(common.Epoch(rndU64(rng)))
+				}
+			}},
+		)
+	}
+	o := ops[rng.Intn(len(ops))]
+	func() {
+		defer func() {
+			if r := recover(); r != nil {
+				label = o.name + "!panic"
+			}
+		}()
+		o.f()
+	}()
+	if label == "" {
+		label = o.name
+	}
+	m.stats.Add("mutation", label)
+	return label
+}
+
+// replaceField replaces one top-level field of the state by a view freshly decoded from generated bytes
+// (whole-subtree replacement through ContainerView.Set).
+func (m *mutator) replaceField(st common.BeaconState) {
+	cl, ok := st.(containerLike)
+	td, ok2 := st.Type().(*view.ContainerTypeDef)
+	if !ok || !ok2 || len(td.Fields) != len(m.schema.Fields) {
+		return
+	}
+	i := m.rng.Intn(len(td.Fields))
+	ft := m.schema.Fields[i].T
+	if ft.MinSize() > 20000 {
+		return
+	}
+	g := &generator{rng: m.rng, mode: gRand, budget: 400, overList: -1}
+	b, _ := Encode(ft, g.gen(ft))
+	v, err := td.Fields[i].Type.Deserialize(codec.NewDecodingReader(bytes.NewReader(b), uint64(len(b))))
+	if err != nil {
+		return
+	}
+	cl.Set(uint64(i), v)
+}
+
+// emitState writes the line of one live copy. prev (may be nil) is the serialization of the same copy before a
+// mutation of ANOTHER copy: if it changed, the copy was disturbed through shared nodes; the line then
+// carries `disturbed` in place of the reported root, which no oracle answer can equal.
+func emitState(w *bufio.Writer, label, typ, cfg string, st common.BeaconState, prev []byte) (out []byte) {
+	defer func() {
+		if r := recover(); r != nil {
+			// the tree is in a state in which it cannot even be hashed/serialized: a line the oracle cannot agree with
+			fmt.Fprintf(w, "st %s!panic %s %s panic -\n", label, typ, cfg)
+			out = nil
+		}
+	}()
+	var buf bytes.Buffer
+	if err := st.Serialize(codec.NewEncodingWriter(&buf)); err != nil {
+		fmt.Fprintf(w, "st %s!serialize-error %s %s serialize-error -\n", label, typ, cfg)
+		return nil
+	}
+	r := st.HashTreeRoot(tree.GetHashFn())
+	claimed := hex.EncodeToString(r[:])
+	if prev != nil && !bytes.Equal(prev, buf.Bytes()) {
+		claimed = "disturbed"
+	}
+	fmt.Fprintf(w, "st %s %s %s %s %s\n", label, typ, cfg, claimed, hexOrDash(buf.Bytes()))
+	return buf.Bytes()
+}
+
 func genState(o hreg.Opts, w *bufio.Writer) error {
+	rng := o.Rand()
+	// small-state presets: every vector a handful of entries, so a state is ~1-2 kB
+	small := map[string]uint64{
+		"SLOTS_PER_HISTORICAL_ROOT": 4, "EPOCHS_PER_HISTORICAL_VECTOR": 3, "EPOCHS_PER_SLASHINGS_VECTOR": 5,
+		"SYNC_COMMITTEE_SIZE": 4, "HISTORICAL_ROOTS_LIMIT": 5, "VALIDATOR_REGISTRY_LIMIT": 21,
+		"EPOCHS_PER_ETH1_VOTING_PERIOD": 2, "SLOTS_PER_EPOCH": 2, "MAX_ATTESTATIONS": 2, "MAX_VALIDATORS_PER_COMMITTEE": 12,
+		"PENDING_DEPOSITS_LIMIT": 3, "PENDING_PARTIAL_WITHDRAWALS_LIMIT": 4, "PENDING_CONSOLIDATIONS_LIMIT": 2,
+	}
+	wide := map[string]uint64{
+		"SLOTS_PER_HISTORICAL_ROOT": 8, "EPOCHS_PER_HISTORICAL_VECTOR": 8, "EPOCHS_PER_SLASHINGS_VECTOR": 4,
+		"SYNC_COMMITTEE_SIZE": 8, "HISTORICAL_ROOTS_LIMIT": 1 << 24, "VALIDATOR_REGISTRY_LIMIT": 1 << 40,
+	}
+	cfgs := []preset{{"small", cfgToken(customSpec(small))}, {"wide-limits", cfgToken(customSpec(wide))}}
+	var names []string
+	for _, c := range stateCtors {
+		names = append(names, c.fork+".BeaconState")
+	}
+	var toks []string
+	for _, c := range cfgs {
+		toks = append(toks, c.tok)
+	}
+	schemas, err := SpecSchemas(names, toks)
+	if err != nil {
+		return err
+	}
+	fmt.Fprintf(w, "keys %s\n", joinKeys())
+	nSeq := o.Pick(10, 200) // per fork and preset
+	nSteps := o.Pick(24, 60)
+	total := 0
+	for _, p := range cfgs {
+		spec, err := specOfToken(p.tok)
+		if err != nil {
+			return err
+		}
+		for _, c := range stateCtors {
+			typ := c.fork + ".BeaconState"
+			schema := schemas[typ+" "+p.tok]
+			if schema == nil {
+				return fmt.Errorf("no specification schema for %s", typ)
+			}
+			e := byName[typ]
+			for s := 0; s < nSeq; s++ {
+				var st common.BeaconState
+				if s%2 == 0 {
+					st = c.mk(spec)
+					o.Stats.Add("initial-state", "default")
+				} else {
+					g := &generator{rng: rng, mode: gRand, budget: 600, overList: -1}
+					b, _ := Encode(schema, g.gen(schema))
+					st, err = c.as(e.View(spec).Deserialize(codec.NewDecodingReader(bytes.NewReader(b), uint64(len(b)))))
+					if err != nil {
+						return fmt.Errorf("generated %s does not decode: %v", typ, err)
+					}
+					o.Stats.Add("initial-state", "generated")
+				}
+				m := &mutator{rng: rng, spec: spec, schema: schema, stats: o.Stats}
+				live := []common.BeaconState{st}
+				last := [][]byte{emitState(w, "initial", typ, p.tok, st, nil)}
+				total += len(last[0])
+				for i := 0; i < nSteps; i++ {
+					if len(live) < 3 && rng.Intn(8) == 0 {
+						cp, err := live[rng.Intn(len(live))].CopyState()
+						if err == nil {
+							live = append(live, cp)
+							o.Stats.Add("mutation", "copy_state")
+							// the copy itself must already report a consistent root
+							last = append(last, emitState(w, "copy_state", typ, p.tok, cp, nil))
+							total += len(last[len(last)-1])
+							continue
+						}
+					}
+					k := rng.Intn(len(live))
+					label := m.step(live[k])
+					// after a mutation of one copy every live copy is checked: the mutated one for the new
+					// content, the others for not having been disturbed through shared nodes
+					for j, l := range live {
+						if j != k {
+							last[j] = emitState(w, "sibling-after-"+label, typ, p.tok, l, last[j])
+						} else {
+							last[j] = emitState(w, label, typ, p.tok, l, nil)
+						}
+						total += len(last[j])
+					}
+				}
+				o.Stats.Add("copies-at-end", fmt.Sprintf("%d", len(live)))
+			}
+		}
+	}
+	o.Stats.Add("ops-hex-megabytes", fmt.Sprintf("%d", total*2>>20))
+	_ = total
 	return nil
 }
